@@ -284,6 +284,9 @@ func (fr *frame) run(entry *State, entryReach string) {
 				if phi, ok := in.(*ssa.Phi); ok {
 					fr.declareVal(phi)
 					fr.rangeAssume(fr.vals[phi], phi.Type())
+					if _, isSlice := phi.Type().Underlying().(*types.Slice); isSlice {
+						fc.fact("", "(<= (len_%s %s) 4611686018427387903)", fc.P.SortOf(phi.Type()), fr.vals[phi])
+					}
 				}
 			}
 			fr.loopEntry[fr.ordinal[b]] = st.clone()
@@ -623,7 +626,7 @@ func (fr *frame) instr(b *ssa.BasicBlock, idx int, in ssa.Instruction, st *State
 		n := fr.declareVal(in)
 		s := P.SortOf(in.Type())
 		el := in.Type().Underlying().(*types.Slice).Elem()
-		fc.fact("", "(and (= (len_%s %s) %s) (not (isnil_%s %s)))", s, n, fr.val(in.Len), s, n)
+		fc.fact("", "(= (len_%s %s) %s)", s, n, fr.val(in.Len))
 		fc.fact("", "(forall ((i Int)) (! (=> (and (<= 0 i) (< i (len_%s %s))) (= (at_%s %s i) %s)) :pattern ((at_%s %s i))))", s, n, s, n, P.ZeroOf(el), s, n)
 	case *ssa.MakeChan:
 		n := fr.declareVal(in)
@@ -706,6 +709,9 @@ func (fr *frame) loadedAssume(n string, T types.Type, st *State) {
 	fc := fr.fc
 	fr.rangeAssume(n, T)
 	switch T.Underlying().(type) {
+	case *types.Slice:
+		// Go slices have fewer than 2^62 elements (an assumption about run-time values, not about the abstract sort)
+		fc.fact("", "(<= (len_%s %s) 4611686018427387903)", fc.P.SortOf(T), n)
 	case *types.Pointer, *types.Map:
 		fc.fact("", "(and (>= %s 0) (< %s %s))", n, n, st.comp["TOP"])
 	case *types.Interface:
